@@ -694,7 +694,17 @@ type hsFix struct {
 }
 
 // hsMemberVariants: the spellings used by the fixed prologues (before / after the exact name in the marshalled map)
-var hsVariantClasses = []string{"alone", "after", "before"}
+// "toplevel" / "toplevel-empty": no (an empty) content.membership and a `membership` member NEXT TO the content - the key the
+// version 1 redaction algorithm keeps; what a member event is, is content.membership alone (seed C15-r5m2)
+var hsVariantClasses = []string{"alone", "after", "before", "toplevel", "toplevel-empty"}
+
+// hsVariantExtra: the top-level members a variant class adds to the event
+func hsVariantExtra(class, good string) map[string]interface{} {
+	if class == "toplevel" || class == "toplevel-empty" {
+		return map[string]interface{}{"membership": good}
+	}
+	return nil
+}
 
 // hsApplyVariant rewrites the content of a join / invite (membership `good`) for a variant class: the reading by exact
 // names is "no membership" (alone), `other` (after: {"membership":other,"memberſhip":good}) or still `good`
@@ -710,6 +720,10 @@ func hsApplyVariant(content map[string]interface{}, class, good, other string) {
 	case "before":
 		content["Membership"] = other
 		content["membership"] = good
+	case "toplevel":
+		delete(content, "membership")
+	case "toplevel-empty":
+		content["membership"] = ""
 	}
 }
 
@@ -827,7 +841,7 @@ func genSendJoinFix(o *Out, r *Rng, i int, fix hsFix) {
 	}
 	evRoom := pickDev(r, p, "!room:hs1", "!other:hs1")
 	g.RoomID = evRoom
-	ev, cls := g.MkU(typ, sender, sk, contentV, []string{"$p:hs1"}, []string{}, nil)
+	ev, cls := g.MkU(typ, sender, sk, contentV, []string{"$p:hs1"}, []string{}, hsVariantExtra(variant, "join"))
 	// a planted entry in the slot the local signature goes to
 	forge := fix.forge
 	if forge == "" && rare(6) {
@@ -986,6 +1000,7 @@ func genMakeJoin(o *Out, r *Rng, i int) {
 	if r.Chance(8) { // state without the authoriser's / creator's membership etc.
 		state = state[:len(state)-1]
 	}
+	state = hsMixRooms(o, r, ver, state, "makejoin")
 	res := o.Do("makejoin", ver, remote, joiner, origin, "hs1", inRoom, hx([]byte(rm.g.RoomID)), jr, pending, pl, create, rooms, tmode, evArgs(state))
 	o.Count("makejoin." + strings.SplitN(res, "=", 2)[0])
 	if strings.HasPrefix(res, "ok:via=@") {
@@ -994,6 +1009,46 @@ func genMakeJoin(o *Out, r *Rng, i int) {
 	if i < 2 {
 		o.Sample("makejoin " + ver + " rule=" + rule + " -> " + res)
 	}
+}
+
+// hsOtherRoom: a copy of a (non-create) state event that belongs to another room - the template builder's state loader mixing up
+// rooms.  The auth rules refuse a check whose auth events span two rooms (C07 / C15: "the resulting event passes the auth rules").
+func hsOtherRoom(r *Rng, ver string, e *Ev) *Ev {
+	var m map[string]json.RawMessage
+	if e == nil || json.Unmarshal(e.JSON, &m) != nil {
+		return nil
+	}
+	if _, has := m["room_id"]; !has {
+		return nil // a v12 create event
+	}
+	other := "!elsewhere:hs1"
+	if verImpl, err := gmsl.GetRoomVersion(gmsl.RoomVersion(ver)); err == nil && verImpl.DomainlessRoomIDs() {
+		other = "!" + r.id43()
+	}
+	m["room_id"], _ = json.Marshal(other)
+	js, err := json.Marshal(m)
+	if err != nil {
+		return nil
+	}
+	if js, err = gmsl.CanonicalJSON(js); err != nil {
+		return nil
+	}
+	return &Ev{ID: e.ID, JSON: js}
+}
+
+// hsMixRooms: with some probability one state event other than the first is replaced by its other-room copy
+func hsMixRooms(o *Out, r *Rng, ver string, state []*Ev, label string) []*Ev {
+	if len(state) < 2 || !r.Chance(12) {
+		return state
+	}
+	i := 1 + r.Intn(len(state)-1)
+	if x := hsOtherRoom(r, ver, state[i]); x != nil {
+		out := append([]*Ev{}, state...)
+		out[i] = x
+		o.Count(label + ".state-spans-two-rooms")
+		return out
+	}
+	return state
 }
 
 func genMakeLeave(o *Out, r *Rng, i int) {
@@ -1013,6 +1068,7 @@ func genMakeLeave(o *Out, r *Rng, i int) {
 			state = append(state, m)
 		}
 	}
+	state = hsMixRooms(o, r, ver, state, "makeleave")
 	res := o.Do("makeleave", ver, leaver, origin, inRoom, hx([]byte(rm.g.RoomID)), tmode, evArgs(state))
 	o.Count("makeleave." + res)
 }
@@ -1107,7 +1163,7 @@ func genInviteFix(o *Out, r *Rng, i int, fix hsFix) {
 	} else if typ == spec.MRoomMember && !fix.happy && r.Chance(5) {
 		typ = Pick(r, hsWrongTypes)
 	}
-	ev, cls := g.MkU(typ, sender, sk, content, []string{"$p:hs2"}, []string{}, nil)
+	ev, cls := g.MkU(typ, sender, sk, content, []string{"$p:hs2"}, []string{}, hsVariantExtra(variant, membership))
 	if ev == nil {
 		o.Count("gen-failed")
 		return
